@@ -181,6 +181,9 @@ def run(ctx):
         ctx.note(f'executions_{name}', n)
     _send_loop(ctx, ntmod, wsdimpl, frandom)
     _loopback(ctx, ntmod, wsdimpl, frandom)
+    frandom.fixed = None
+    from mcx.checks import c15_sched
+    c15_sched.run(ctx)      # (c) add_outbound_message racing with the send thread and the looped-back datagram
 
 
 def _send_loop(ctx, ntmod, wsdimpl, frandom):
@@ -368,6 +371,9 @@ def _loopback_window(ctx, ntmod, wsdimpl, frandom):
 
 
 def replay(ctx, case):
+    if case['kind'] == 'loopback-race':
+        from mcx.checks import c15_sched
+        return c15_sched.replay(ctx, case)
     ntmod, wsdimpl, frandom = _setup()
     if case['kind'] == 'schedule':
         from mcx.choice import Chooser
